@@ -1,8 +1,9 @@
 // conc: goroutines that only read the tensors they share (C18).
-//   -mode writeset : run every operation of the read-only alphabet ALONE with the metadata hooks on and print,
-//                    per operation, the writes to shared operands it performed (binds spec/Conc.tla to the code)
-//   -mode monitor  : run G goroutines with generated programs over shared read-only tensors plus private ones,
-//                    compare every result with the sequential run (the binary is built with -race)
+//
+//	-mode writeset : run every operation of the read-only alphabet ALONE with the metadata hooks on and print,
+//	                 per operation, the writes to shared operands it performed (binds spec/Conc.tla to the code)
+//	-mode monitor  : run G goroutines with generated programs over shared read-only tensors plus private ones,
+//	                 compare every result with the sequential run (the binary is built with -race)
 package main
 
 import (
@@ -15,8 +16,14 @@ import (
 	"runtime"
 	"sync"
 	"time"
+	"unsafe"
 
 	"gorgonia.org/tensor"
+)
+
+var (
+	pins   []unsafe.Pointer
+	pinned = map[uintptr]bool{}
 )
 
 type sharedSet struct {
@@ -480,6 +487,10 @@ func main() {
 				}
 				if id == 0 {
 					return
+				}
+				if !pinned[id] { // keep the object alive: its address is then never reused for another object
+					pinned[id] = true
+					pins = append(pins, unsafe.Pointer(id)) //nolint:govet
 				}
 				if run == 0 && len(ev) > 6 && (ev[:6] == "Borrow" || ev[:6] == "Return") && ev != "BorrowInts" && ev != "ReturnInts" {
 					k, ok := slot[id]
